@@ -770,10 +770,17 @@ mod pattern_impl {
     pub struct RegexSearcher<'r, 't> {
         haystack: &'t str,
         regex: &'r Regex,
+        // The end of the last step returned by next().
         current_pos: usize,
+        // Whether the last step returned by next() was an empty match at current_pos.
+        last_match_empty: bool,
         done: bool,
-        // For reverse searching
+        // For reverse searching: the start of the last step returned by next_back(), the
+        // matches of the haystack (computed on first use) and how many of them are still
+        // to be reported from the back.
         reverse_pos: usize,
+        reverse_matches: Option<Vec<Range>>,
+        reverse_remaining: usize,
         reverse_done: bool,
     }
 
@@ -783,23 +790,25 @@ mod pattern_impl {
                 haystack,
                 regex,
                 current_pos: 0,
+                last_match_empty: false,
                 done: false,
                 reverse_pos: haystack.len(),
+                reverse_matches: None,
+                reverse_remaining: 0,
                 reverse_done: false,
             }
         }
 
-        fn find_last_match_before(&self, pos: usize) -> Option<super::Match> {
-            // Find all matches up to the given position and return the last one
-            let mut last_match = None;
-            for m in self.regex.find_from(self.haystack, 0) {
-                if m.end() <= pos {
-                    last_match = Some(m);
-                } else {
-                    break;
-                }
+        // The next char boundary after pos, or None if pos is at the end.
+        fn next_boundary(&self, pos: usize) -> Option<usize> {
+            if pos >= self.haystack.len() {
+                return None;
             }
-            last_match
+            let mut next_pos = pos + 1;
+            while !self.haystack.is_char_boundary(next_pos) {
+                next_pos += 1;
+            }
+            Some(next_pos)
         }
     }
 
@@ -813,52 +822,35 @@ mod pattern_impl {
                 return SearchStep::Done;
             }
 
-            // Try to find the next match starting from current position
-            if let Some(m) = self.regex.find_from(self.haystack, self.current_pos).next() {
-                let match_start = m.start();
-                let match_end = m.end();
+            // After an empty match the search resumes one character later, as in find_iter;
+            // the skipped character is reported as (part of) a Reject step below.
+            let search_from = if self.last_match_empty {
+                self.next_boundary(self.current_pos)
+            } else {
+                Some(self.current_pos)
+            };
+            let found =
+                search_from.and_then(|pos| self.regex.find_from(self.haystack, pos).next());
 
-                // Handle any gap between current position and match start
-                if self.current_pos < match_start {
-                    let reject_end = match_start;
+            if let Some(m) = found {
+                // Report any gap between the previous step and the match first.
+                if self.current_pos < m.start() {
                     let reject_start = self.current_pos;
-                    self.current_pos = match_start;
-                    return SearchStep::Reject(reject_start, reject_end);
+                    self.current_pos = m.start();
+                    self.last_match_empty = false;
+                    return SearchStep::Reject(reject_start, m.start());
                 }
-
-                // Return the match
-                self.current_pos = match_end;
-
-                // Handle zero-width matches to avoid infinite loops
-                if match_start == match_end {
-                    // For zero-width matches, we need to advance at least one byte
-                    // to avoid infinite loops
-                    if match_end < self.haystack.len() {
-                        // Find the next character boundary
-                        let mut next_pos = match_end + 1;
-                        while next_pos < self.haystack.len()
-                            && !self.haystack.is_char_boundary(next_pos)
-                        {
-                            next_pos += 1;
-                        }
-                        self.current_pos = next_pos;
-                    } else {
-                        // We're at the end of the string
-                        self.done = true;
-                    }
-                }
-
-                SearchStep::Match(match_start, match_end)
+                self.current_pos = m.end();
+                self.last_match_empty = m.start() == m.end();
+                SearchStep::Match(m.start(), m.end())
             } else {
                 // No more matches, reject remaining text if any
+                self.done = true;
                 if self.current_pos < self.haystack.len() {
                     let reject_start = self.current_pos;
-                    let reject_end = self.haystack.len();
                     self.current_pos = self.haystack.len();
-                    self.done = true;
-                    SearchStep::Reject(reject_start, reject_end)
+                    SearchStep::Reject(reject_start, self.haystack.len())
                 } else {
-                    self.done = true;
                     SearchStep::Done
                 }
             }
@@ -871,48 +863,40 @@ mod pattern_impl {
                 return SearchStep::Done;
             }
 
-            // Try to find the last match before current reverse position
-            if let Some(m) = self.find_last_match_before(self.reverse_pos) {
-                let match_start = m.start();
-                let match_end = m.end();
+            // The reverse steps are the forward steps in reverse order: the same matches,
+            // reported from the last to the first, with the text between them rejected.
+            if self.reverse_matches.is_none() {
+                let matches: Vec<Range> = self
+                    .regex
+                    .find_iter(self.haystack)
+                    .map(|m| m.range())
+                    .collect();
+                self.reverse_remaining = matches.len();
+                self.reverse_matches = Some(matches);
+            }
+            let last_match = match (&self.reverse_matches, self.reverse_remaining) {
+                (Some(matches), n) if n > 0 => Some(matches[n - 1].clone()),
+                _ => None,
+            };
 
-                // Handle any gap between match end and current reverse position
-                if match_end < self.reverse_pos {
-                    let reject_start = match_end;
+            if let Some(m) = last_match {
+                // Report any gap between the match and the previous step first.
+                if m.end < self.reverse_pos {
                     let reject_end = self.reverse_pos;
-                    self.reverse_pos = match_end;
-                    return SearchStep::Reject(reject_start, reject_end);
+                    self.reverse_pos = m.end;
+                    return SearchStep::Reject(m.end, reject_end);
                 }
-
-                // Return the match
-                self.reverse_pos = match_start;
-
-                // Handle zero-width matches
-                if match_start == match_end {
-                    // For zero-width matches, move back by one character
-                    if match_start > 0 {
-                        let mut prev_pos = match_start - 1;
-                        while prev_pos > 0 && !self.haystack.is_char_boundary(prev_pos) {
-                            prev_pos -= 1;
-                        }
-                        self.reverse_pos = prev_pos;
-                    } else {
-                        // We're at the beginning of the string
-                        self.reverse_done = true;
-                    }
-                }
-
-                SearchStep::Match(match_start, match_end)
+                self.reverse_remaining -= 1;
+                self.reverse_pos = m.start;
+                SearchStep::Match(m.start, m.end)
             } else {
                 // No more matches, reject remaining text if any
+                self.reverse_done = true;
                 if self.reverse_pos > 0 {
-                    let reject_start = 0;
                     let reject_end = self.reverse_pos;
                     self.reverse_pos = 0;
-                    self.reverse_done = true;
-                    SearchStep::Reject(reject_start, reject_end)
+                    SearchStep::Reject(0, reject_end)
                 } else {
-                    self.reverse_done = true;
                     SearchStep::Done
                 }
             }
